@@ -146,6 +146,24 @@ def run_case(prog, rows, agg):
                 w["late_effects"] = [list(map(str, e)) for e in late[:4]]
                 w["last_line_event"] = rec.lines[-1]["pln"] if rec.lines else None
                 return "nexts-side-effect-of-a-later-line", w, len(full)
+    # ---- collect(nexts=n, lines=<a list that already holds lines>): the budget is n more lines, whatever the sink holds
+    if full:
+        n = min(2, len(full))
+        sink = [["held", "1"], ["held", "2"], ["held", "3"]]
+        cp, cap = env.new_csvpath(list(pol), **kw)
+        with hooks.recording(agg) as rec:
+            try:
+                got = cp.collect(a["text"], nexts=n, lines=sink)
+            except Exception as e:  # noqa
+                w["nexts"] = n
+                w["exc"] = repr(e)[:200]
+                return "nexts-prefilled-sink-exception", w, len(full)
+        agg.count("nexts_prefilled_sink_runs")
+        if got is not sink or got[:3] != [["held", "1"], ["held", "2"], ["held", "3"]] or got[3:] != full[:n]:
+            w["nexts"] = n
+            w["got"] = got[:8]
+            w["want_after_held"] = full[:n][:6]
+            return "nexts-prefilled-sink-lines", w, len(full)
     return None, None, len(full)
 
 
